@@ -64,6 +64,23 @@ func NativeToObject(val any) Object {
 		return NativeToObject(ptr.Elem().Interface())
 	}
 
+	// named types (type Lang string, time.Duration, ...) are converted
+	// by their kind, like the predeclared types above
+	rv := reflect.ValueOf(val)
+
+	switch valType.Kind() {
+	case reflect.String:
+		return &Str{Value: rv.String()}
+	case reflect.Bool:
+		return &Bool{Value: rv.Bool()}
+	case reflect.Float32, reflect.Float64:
+		return &Float{Value: rv.Float()}
+	case reflect.Int, reflect.Int8, reflect.Int16, reflect.Int32, reflect.Int64:
+		return &Int{Value: rv.Int()}
+	case reflect.Uint, reflect.Uint8, reflect.Uint16, reflect.Uint32, reflect.Uint64:
+		return &Int{Value: int64(rv.Uint())}
+	}
+
 	return nil
 }
 
